@@ -22,6 +22,7 @@ A call that changes the state inside a condition is evaluated in C++ order (shor
 import json, re
 from cxx2lean import clang_ast, body_of, params_of, enum_values, Untranslatable
 
+QSTR_AS_BYTES = [False]        # filesystemhandler.cpp: QString paths are UTF-8 byte strings in the model
 PURE_CLASSES = ("Parser",)      # classes whose member functions are static and touch no object state
 
 WRAP = ("ImplicitCastExpr", "ExprWithCleanups", "MaterializeTemporaryExpr", "CXXBindTemporaryExpr", "ConstantExpr",
@@ -71,7 +72,7 @@ def ty_of(q):
     if "QJsonDocument" in q0:
         return "json"
     if "QString" in q0:
-        return "qstr"
+        return "bytes" if QSTR_AS_BYTES[0] else "qstr"
     if q0 == "void":
         return "void"
     return "?" + q0
@@ -304,11 +305,11 @@ class Fn:
         self.info["fuel"] = self.needs_fuel
         if self.needs_fuel:
             args.insert(0, "(fuel : Nat)")
-        if self.free and self.uses_env:
+        if self.free and self.uses_env and self.state_ty in ("Sock", "Proxy.St"):
             raise Untranslatable("file-scope function that needs the environment")
         args += ["(%s : Bytes)" % o for o in self.oracles]
         self.info["oracles"] = list(self.oracles)
-        head = "def %s %s%s%s: %s :=" % (name, self.env_sig if self.uses_env else "", "" if self.free else "(s : %s) " % self.state_ty,
+        head = "def %s %s%s%s: %s :=" % (name, self.env_sig if (self.uses_env and not (self.free and self.state_ty == "List Fx.Act")) else "", "" if self.free else "(s : %s) " % self.state_ty,
                                          " ".join(args) + (" " if args else ""), rty)
         return "/-- `%s` -/\n%s\n%s\n" % (self.key, head, ind(body, 2))
 
@@ -1703,6 +1704,205 @@ def translate_proxy(repo, exp):
 
 
 
+# --------------------------------------------------------------------------------------------------- filesystemhandler.cpp
+
+FS_WANTED = ["FilesystemHandlerPrivate::absolutePath", "FilesystemHandler::process"]
+
+
+class FsFn(Fn):
+    """`FilesystemHandlerPrivate::absolutePath` (pure: the served location or refusal) and `FilesystemHandler::process`
+    (which of 500 / 404 / directory listing / file transfer happens), over the model's file-system environment `fe`.
+    QString paths are byte strings; QDir / QFileInfo / QUrl::fromPercentEncoding are words of `Qhttp/Model/FxPrim.lean`."""
+    def __init__(self, ctx, key):
+        Fn.__init__(self, ctx, key)
+        self.state_ty = "List Fx.Act"
+        self.env_sig = "(fe : FsHandler.FsEnv) "
+        self.uses_env = True
+        self.params = [p for p in self.params if not p[2].startswith("?")]          # Socket *socket
+        if key.endswith("::absolutePath"):
+            self.free = True
+            self.const = True
+            self.inouts = ctx.inout.get(key, [])
+
+    def translate(self):
+        text = Fn.translate(self)
+        if self.free:
+            # a pure function still reads the environment
+            text = text.replace("def %s " % self.info["name"], "def %s (fe : FsHandler.FsEnv) " % self.info["name"], 1)
+            self.info["fe"] = True
+        return text
+
+    def member(self, n):
+        n = strip(n)
+        if n.get("kind") == "MemberExpr" and kids(n):
+            base = strip(kids(n)[0])
+            if base.get("kind") == "CXXThisExpr":
+                return n["name"]
+            if base.get("kind") == "MemberExpr" and base.get("name") == "d" and kids(base) and strip(kids(base)[0]).get("kind") == "CXXThisExpr":
+                return n["name"]
+        return None
+
+    def obj_path(self, n):
+        m = self.member(n)
+        if m == "documentRoot":
+            return "root"
+        n0 = strip(n)
+        if n0.get("kind") == "CXXThisExpr":
+            return "this"
+        if n0.get("kind") == "MemberExpr" and n0.get("name") == "d" and kids(n0) and strip(kids(n0)[0]).get("kind") == "CXXThisExpr":
+            return "d"
+        if n0.get("kind") == "DeclRefExpr" and n0.get("referencedDecl", {}).get("name") == "socket":
+            return "socket"
+        if n0.get("kind") == "DeclRefExpr" and n0.get("referencedDecl", {}).get("kind") in ("VarDecl", "ParmVarDecl"):
+            return ("local", n0["referencedDecl"]["name"])
+        return None
+
+    def effectful(self, n):
+        n0 = strip(n)
+        if n0.get("kind") == "CXXMemberCallExpr":
+            callee = strip(kids(n0)[0])
+            if callee.get("kind") == "MemberExpr" and kids(callee):
+                o = self.obj_path(kids(callee)[0])
+                if o == "socket" or (o in ("d", "this") and callee.get("name") in ("processFile", "processDirectory", "absolutePath")):
+                    return True
+        return any(self.effectful(c) for c in kids(n0))
+
+    def rebound(self, n, env):
+        out = []
+        def walk(x):
+            x0 = strip(x)
+            if x0.get("kind") == "CXXMemberCallExpr" and strip(kids(x0)[0]).get("name") == "absolutePath":
+                a0 = strip(kids(x0)[2]) if len(kids(x0)) > 2 else {}
+                vn = a0.get("referencedDecl", {}).get("name")
+                if vn in env and vn not in out:
+                    out.append(vn)
+            for c in kids(x0):
+                walk(c)
+        walk(n)
+        return sorted(out)
+
+    def call_member(self, n, env, want_value):
+        ks = kids(n)
+        callee = strip(ks[0])
+        if callee.get("kind") == "MemberExpr" and kids(callee):
+            objn = kids(callee)[0]
+            obj = self.obj_path(objn)
+            nm = callee["name"]
+            real = [x for x in ks[1:] if x.get("kind") != "CXXDefaultArgExpr"]
+            if obj == "root":
+                pre, a = self.args(real, env)
+                tys = [t for _, t in a]
+                if nm == "absoluteFilePath" and tys == ["bytes"]:
+                    return pre, "(Fs.absoluteFilePath fe.root %s)" % a[0][0], "bytes"
+                if nm == "relativeFilePath" and tys == ["bytes"]:
+                    return pre, "(Fs.relativeFilePath fe.root %s)" % a[0][0], "bytes"
+                if nm == "exists" and tys == ["bytes"]:
+                    return pre, "(Fx.exists fe %s)" % a[0][0], "bool"
+                if nm == "path" and not a:
+                    return pre, "(Fx.rootPath fe)", "obytes"
+                raise Untranslatable("documentRoot.%s" % nm)
+            if obj == "socket":
+                pre, a = self.args(real, env)
+                if nm == "writeError" and [t for _, t in a] == ["int"]:
+                    return pre + ["let s := Fx.err s %s" % a[0][0]], "()", "void"
+                raise Untranslatable("socket->%s in the filesystem handler" % nm)
+            if obj in ("d", "this") and nm in ("processFile", "processDirectory"):
+                pre, a = self.args(real[1:], env)              # the first argument is the socket
+                if nm == "processFile" and [t for _, t in a] == ["bytes"]:
+                    return pre + ["let s := Fx.file s %s" % a[0][0]], "()", "void"
+                if nm == "processDirectory" and [t for _, t in a] == ["bytes", "bytes"]:
+                    return pre + ["let s := Fx.dir s %s %s" % (a[0][0], a[1][0])], "()", "void"
+                raise Untranslatable("%s with these arguments" % nm)
+            if obj in ("d", "this") and nm == "absolutePath" and len(real) == 2:
+                info = self.ctx.need("FilesystemHandlerPrivate::absolutePath")
+                p, c, t = self.ex(real[0], env)
+                a0 = strip(real[1])
+                vn = a0.get("referencedDecl", {}).get("name")
+                if a0.get("kind") != "DeclRefExpr" or vn not in env or env[vn][1] != "bytes":
+                    raise Untranslatable("absolutePath() with an out-parameter that is not a local string")
+                tmp = self.ctx.fresh()
+                return p + ["let (%s, %s) := %s fe %s %s" % (tmp, env[vn][0], info["name"], c, env[vn][0])], tmp, "bool"
+            # QFileInfo(x).isDir()
+            o0 = strip(objn)
+            if nm == "isDir" and not real and "QFileInfo" in qt(objn):
+                inner = [c for c in kids(o0) if c.get("kind") != "CXXDefaultArgExpr"] if o0.get("kind") in ("CXXConstructExpr", "CXXTemporaryObjectExpr", "CXXFunctionalCastExpr") else [o0]
+                if len(inner) == 1:
+                    p, c, t = self.ex(inner[0], env)
+                    if t == "bytes":
+                        return p, "(Fx.isDir fe %s)" % c, "bool"
+            # QString value methods
+            pre0, oc, ot = self.ex(objn, env)
+            pre, a = self.args(real, env)
+            if ot == "obytes" and nm == "isNull" and not a:
+                return pre0, "%s.isNone" % oc, "bool"
+            if ot == "bytes":
+                if nm == "startsWith" and [t for _, t in a] == ["bytes"]:
+                    return pre0 + pre, "(Qhttp.startsWith %s %s)" % (a[0][0], oc), "bool"
+                if nm in ("toUtf8", "toLatin1") and not a:
+                    return pre0, oc, "bytes"
+                if nm == "isEmpty" and not a:
+                    return pre0, "(%s.isEmpty)" % oc, "bool"
+        return Fn.call_member(self, n, env, want_value)
+
+    def call_free(self, n, env, want_value):
+        ks = kids(n)
+        fn = strip(ks[0])
+        nm = fn.get("referencedDecl", {}).get("name")
+        real = [x for x in ks[1:] if x.get("kind") != "CXXDefaultArgExpr"]
+        if nm == "fromPercentEncoding" and len(real) == 1:
+            p, c, t = self.ex(real[0], env)
+            if t == "bytes":
+                return p, "(Fs.pctDecode %s)" % c, "bytes"
+        return Fn.call_free(self, n, env, want_value)
+
+
+def translate_fs(repo, exp):
+    QSTR_AS_BYTES[0] = True
+    try:
+        docs = clang_ast(repo, "filesystemhandler.cpp", "QHttpEngine::FilesystemHandler", exp)
+        decls = {}
+        by_id = {}
+        def index(n, cls=None):
+            if n.get("kind") == "CXXRecordDecl" and n.get("name"):
+                cls = n["name"]
+            if n.get("kind") == "CXXMethodDecl" and "id" in n and cls:
+                by_id[n["id"]] = cls
+            for ch in n.get("inner", []) or []:
+                index(ch, cls)
+        for d in docs:
+            index(d)
+        for d in docs:
+            if d.get("kind") == "CXXMethodDecl" and body_of(d) is not None:
+                cls = by_id.get(d.get("previousDecl"))
+                if cls:
+                    decls[cls + "::" + d["name"]] = d
+        sdocs = clang_ast(repo, "filesystemhandler.cpp", "QHttpEngine::Socket", exp)
+        senums = enum_values(sdocs, "Socket")
+        ctx = Ctx(decls, senums, "")
+        ctx.fetch = lambda name: clang_ast(repo, "filesystemhandler.cpp", name, exp)
+        ctx.fn_class = FsFn
+        done, failed = [], []
+        for key in FS_WANTED:
+            try:
+                ctx.need(key)
+            except Untranslatable as e:
+                failed.append("%s (%s)" % (key, e))
+        out = ["-- GENERATED on every run by tools/cxx2lean_qt.py from src/src/filesystemhandler.cpp — do not edit.",
+               "import Qhttp.Model.FxPrim", "set_option linter.unusedVariables false", "", "namespace QhttpGen.Fs", "open Qhttp", ""]
+        for key in ctx.order:
+            out.append(ctx.code[key]); done.append(key)
+        helpers = [ctx.done[k]["name"] for k in ctx.order if k not in FS_WANTED]
+        out.append("end QhttpGen.Fs\n")
+        if helpers:
+            out.append("macro \"unfold_fs_helpers\" : tactic => `(tactic| try simp only [%s] at *)\n" % ", ".join("QhttpGen.Fs." + h for h in helpers))
+        else:
+            out.append("macro \"unfold_fs_helpers\" : tactic => `(tactic| skip)\n")
+        return "\n".join(out), done, failed
+    finally:
+        QSTR_AS_BYTES[0] = False
+
+
+
 PARSER_WANTED = ["Parser::split", "Parser::parseHeaderList", "Parser::parseHeaders", "Parser::parseRequestHeaders", "Parser::parseResponseHeaders"]
 
 # what a function that could not be translated is replaced by: the model's function in the translated signature
@@ -1815,6 +2015,11 @@ def translate_parser(repo, exp):
 
 if __name__ == "__main__":
     import sys
+    if len(sys.argv) > 2 and sys.argv[2] == "fs":
+        text, done, failed = translate_fs(sys.argv[1], "/repo/_build/src")
+        print(text)
+        print("-- done:", done, "\n-- failed:", failed, file=sys.stderr)
+        sys.exit(0)
     if len(sys.argv) > 2 and sys.argv[2] == "proxy":
         text, done, failed = translate_proxy(sys.argv[1], "/repo/_build/src")
         print(text)
